@@ -1,6 +1,7 @@
 /- Driver/ApeFile.lean — APEv2 file container commands -/
 import MutagenModel.Model.Container.ApeFile
 import MutagenModel.Model.Container.ApeFileM
+import MutagenModel.Model.Container.ApeFileLoadM
 import Driver.Util
 import Driver.FileOps
 namespace Driver
@@ -19,6 +20,10 @@ def apefOp (a : Args) : String :=
   | "savem" =>
     let tag3 := if a.nat "empty" 0 == 1 then none else some (a.bytes "hdr", a.bytes "items", a.bytes "ftr")
     showResult (saveM (a.nat "B" 1048576) tag3 (envOf a) { data := a.bytes "data" })
+  -- `APEv2(fileobj)` under a fault schedule: what it located and the length of the tag bytes read
+  | "loadm" =>
+    showResult (apeLoadM (envOf a) { data := a.bytes "data" }) (fun (L, tag) =>
+      s!"r={L.start}:{L.endd}:{if L.isAtStart then 1 else 0}:{tag.length}")
   | "deletem" => showResult (deleteM (a.nat "B" 1048576) (envOf a) { data := a.bytes "data" })
   | "locate" =>
     match locate (a.bytes "data") with
